@@ -20,6 +20,34 @@ CLAIMED = {
             "Exploration: every origin observed natively in an argument of a backtrace point was on a trace of that argument (eager and on-demand) and every reported trace was well-formed.",
             "Same dynamic under-approximation and exclusions as C01 (shared flow machinery); connectivity accepts intra-summary edges in either direction because the traversal itself follows both.",
             "DESIGN.md §3 C03"),
+    "C04": ("rapid property test against a reference model: drawn RE2 specifications x generated two-package modules with probe sites of every call form; Go regexp model of spec matching, both directions",
+            "Exploration: on every explored (module, specification) a probe was treated as source/sink exactly when one of its possible callees matches the specification's package/method/context patterns.",
+            "The model takes the possible callees from the probe's construction (generator knowledge), not from the tool; specifications that match the probes' own helper functions are redrawn.",
+            "DESIGN.md §3 C04"),
+    "C08": ("invariant check against an independently computed relation: SSA def-use chains of value-computing instructions vs paths in the function's summary graph, over generated programs and repository testdata",
+            "Exploration: every def-use chain from a parameter/free variable/call result to a return, call argument, captured variable or branch condition had a path in the summary graph of every explored function.",
+            "Only the first half of the property (chains are covered) is decided; persistence of origins along the CFG is exercised indirectly. Memory operations are outside the demanded relation.",
+            "DESIGN.md §3 C08"),
+    "C09": ("differential test: each standard-library summary template is executed natively (marker found in the result = real flow) and analysed with the predefined-summary table in force; conformance audit of table entries",
+            "Exploration: every flow argument->result / argument->receiver that a native execution of a template exhibited was reported by the taint analysis using the built-in summary.",
+            "Only functions the templates invoke get the dynamic oracle; a marker transformed by the real function creates no obligation.",
+            "DESIGN.md §3 C09"),
+    "C11": ("native ground truth: probe statements log retained pointers at run time; overlapping memory of two probes vs intersecting points-to sets of the probed SSA values",
+            "Exploration: every pair of probes that referred to the same object in some execution had intersecting points-to sets on the explored pointer-profile programs.",
+            "The allocation-site half of the property is checked through the same intersection (labels are allocation sites); reflection and unsafe are outside the generator.",
+            "DESIGN.md §3 C11"),
+    "C13": ("native ground truth under drawn schedules (GOMAXPROCS, yields) of concurrent-flow programs vs taint analysis with use-escape-analysis: flow reported, or escape reported, or loud error",
+            "Exploration: no observed source->sink flow of a concurrent program was missed silently by the escape-aware taint analysis (eager and on-demand) on the explored programs and schedules.",
+            "Schedules are sampled, not enumerated; shares the recorded exclusions of C01 (the same flow engine).",
+            "DESIGN.md §3 C13"),
+    "C14": ("Go race detector (-race, halt_on_error=0) on native runs of generated concurrent programs as ground truth vs locality claims from the public EscapeAnalysisState interface over all derived contexts",
+            "Exploration: no line on which the race detector reported a racing write consisted only of write instructions classified thread-local in the merged contexts of their functions.",
+            "Racing reads are not judged (implicit loads carry no position); the race detector only sees interleavings that occur; contexts are merged per function (sound by monotonicity, C15).",
+            "DESIGN.md §3 C14"),
+    "C15": ("algebraic-law property test over escape graphs taken from real analyses (verif-tagged accessors) and rapid-weakened variants: semilattice laws, monotone transfer functions, order independence",
+            "Exploration: idempotence, commutativity, associativity, upper bound, a<=b => join=b, status closure, monotonicity of every instruction's transfer function and equal summaries across re-runs held on all explored graphs.",
+            "Worklist orders are sampled through map iteration order across repeated analyses, not permuted explicitly; weakened graphs on which a transfer function panics are discarded.",
+            "DESIGN.md §3 C15"),
     "C05": ("metamorphic property test: same program under drawn option vectors vs default options (set equality / max-alarms law), generated programs and repository testdata",
             "Exploration: reported pair sets were invariant under every explored option vector; the max-alarms subset/size/non-emptiness law held.",
             "Relies on C06 (determinism) for the baseline; filters matching std packages are only used on import-free programs.",
